@@ -5,7 +5,7 @@
 #            the setters / the back end's batch handling; the AsyncPipe is given (C10)); 10 invariants; TLC exhaustive on five
 #            bounded models; three switches must violate (disable() not waiting for commits under way = the code as found,
 #            no reassembly of split records, time base not reset in a new file).
-#   binding: spec -> code: every sequence of 3 API calls of the model (4 in the thorough tier) and seeded random walks of 6 calls,
+#   binding: spec -> code: every sequence of 3 API calls of the model (4 in the thorough tier) and seeded random walks of 7 calls,
 #            executed by harness/e11_tracesink/driver.cpp on a real Sink (also with every commit repeated 30 times with ~900 byte
 #            names, so that records straddle pipe buffers and files roll over); code -> spec: seeded random histories with three
 #            committer threads running concurrently with the controller (bursts overlapped by disable()/enable(), setters, path
@@ -49,7 +49,7 @@ def to_script(hist, rep=1, pad=0):
     for h in hist:
         o = h["o"]
         if o == "commit":
-            ops.append({"o": "commit", "t": h["t"], "nb": h["nb"], "m": h["m"], "l": 1})
+            ops.append({"o": "commit", "t": h["t"], "nb": h["nb"], "m": h["m"], "l": h["v"]})
         elif o == "set":
             ops.append({"o": "set", "w": h["w"], "v": sorted(h["v"]) if h["w"] == "exempt" else h["v"]})
         elif o == "rm":
@@ -152,16 +152,19 @@ def run(ctx):
     if not run_scripts(ctx, exe, s3, "gen"):
         return
     rnd = random.Random(ctx.seed)
-    walks = unique_scripts(ctx.tlc_gen("TraceSink", "Gen_TraceSink.tla", "Gen_d6.cfg", simulate=(300, 60) if quick else (3000, 60), workers=1,
+    walks = unique_scripts(ctx.tlc_gen("TraceSink", "Gen_TraceSink.tla", "Gen_d7.cfg", simulate=(300, 70) if quick else (3000, 70), workers=1,
                                        timeout=300, limit=500 if quick else 6000))
     if not run_scripts(ctx, exe, walks, "walks"):
         return
     # the same call sequences with every commit repeated 30 times and ~900 byte names: about ten records per pipe buffer, records
     # straddle buffers, files roll over inside an enabled period
-    big = [dict(s, rep=30, pad=880 + (i % 3) * 17) for i, s in enumerate(with_commits + walks) if sum(1 for o in s["ops"] if o["o"] == "commit") >= 2]
+    def bigger(i, s):       # size limits that several batches are needed to reach
+        ops = [dict(o, v=(150, 400, 1)[i % 3]) if o["o"] == "set" and o["w"] == "max" and o["v"] == 1 else o for o in s["ops"]]
+        return {"ops": ops, "rep": 30, "pad": 880 + (i % 3) * 17}
+    big = [bigger(i, s) for i, s in enumerate(with_commits + walks) if sum(1 for o in s["ops"] if o["o"] == "commit") >= 2]
     rnd.shuffle(big)
     big = big[:60 if quick else 1500]
-    ctx.notes.append("call sequences: %d exhaustive, %d random walks of 6 calls, %d repeated with 30 x ~900 byte records per commit" % (len(s3), len(walks), len(big)))
+    ctx.notes.append("call sequences: %d exhaustive, %d random walks of 7 calls, %d repeated with 30 x ~900 byte records per commit" % (len(s3), len(walks), len(big)))
     if not run_scripts(ctx, exe, big, "big"):
         return
     # 3. code -> spec: seeded random concurrent histories
